@@ -1020,8 +1020,9 @@ impl MmapXen {
         len: usize,
     ) -> MmapXenSlice {
         match mmap_xen {
-            Some(mmap_xen) => mmap_xen.mmap.mmap_slice(addr, prot, len).unwrap(),
-            None => MmapXenSlice::raw(addr),
+            // An empty range needs no mapping (and the kernel refuses zero-length mappings).
+            Some(mmap_xen) if len != 0 => mmap_xen.mmap.mmap_slice(addr, prot, len).unwrap(),
+            _ => MmapXenSlice::raw(addr),
         }
     }
 }
